@@ -46,6 +46,9 @@ class TlcResult:
             mm = re.match(r"Error: (Invariant|Action property|Temporal propert\w+) (\S+) (is|was) violated", l)
             if mm:
                 self.violated.append(mm.group(2))
+            mp = re.match(r"Error: Postcondition (\w+) .* is false", l)
+            if mp:
+                self.violated.append(mp.group(1))
             mc = re.match(r"<(\w+) line \d+, col \d+ to line \d+, col \d+ of module (\w+)>: (\d+):(\d+)", l)
             if mc:
                 self.coverage[mc.group(1)] = self.coverage.get(mc.group(1), 0) + int(mc.group(4))
